@@ -45,25 +45,49 @@ func main() {
 			"distinct = hash of scenario+consumer; non-trivial = the content mismatches the digest or the source fails, i.e. the monitor must see a rejection",
 		Workers:     8,
 		CaseTimeout: 120 * time.Second,
+		// ~1/5 of what quick observes at seed 1.
 		Floors: map[string]int64{
-			"executions":                   100000,
-			"mismatch_rejected":            40000,
-			"match_completed":              15000,
-			"withheld_checked":             20000,
-			"prefix_checked":               30000,
-			"io_error_passed_through":      5000,
-			"verdict_negative_on_mismatch": 10000,
-			"verdict_positive_on_match":    4000,
-			"clone_stream_leaves":          8000,
-			"clone_copy_leaves":            4000,
-			"random_large_blobs":           100,
-			"random_eof_with_data":         5000,
-			"random_empty_chunks":          5000,
-			"ctor_casReaderBuffer":         20000,
-			"ctor_casChunkReaderBuffer":    20000,
-			"ctor_casByteSliceBuffer":      2000,
-			"ctor_casReaderAtBuffer":       2000,
-			"thorough:executions":          5000000,
+			"executions":                   150000,
+			"mismatch_rejected":            150000,
+			"match_completed":              12000,
+			"withheld_checked":             110000,
+			"prefix_checked":               150000,
+			"sticky_checked":               70000,
+			"io_error_passed_through":      44000,
+			"verdict_negative_on_mismatch": 38000,
+			"verdict_positive_on_match":    5000,
+			"clone_stream_leaves":          60000,
+			"clone_copy_leaves":            22000,
+			"random_large_blobs":           500,
+			"random_eof_with_data":         20000,
+			"random_empty_chunks":          28000,
+			"ctor_casReaderBuffer":         68000,
+			"ctor_casChunkReaderBuffer":    68000,
+			"ctor_casByteSliceBuffer":      5500,
+			"ctor_casReaderAtBuffer":       8000,
+			"kind_match":                   19000,
+			"kind_flip":                    24000,
+			"kind_trunc":                   14000,
+			"kind_extend":                  66000,
+			"kind_sizeshort":               6000,
+			"kind_sizelong":                21000,
+			"leaf_ToByteSlice":             23000,
+			"leaf_ToProto":                 7500,
+			"leaf_ToReader":                24000,
+			"leaf_ToChunkReader":           56000,
+			"leaf_ReadAt":                  57000,
+			"leaf_IntoWriter":              12000,
+			"leaf_Discard":                 14000,
+			"fn_BLAKE3":                    5000,
+			"fn_GITSHA1":                   5000,
+			"fn_MD5":                       5000,
+			"fn_SHA1":                      5000,
+			"fn_SHA256":                    5000,
+			"fn_SHA256TREE":                5000,
+			"fn_SHA384":                    5000,
+			"fn_SHA512":                    5000,
+			"thorough:executions":          6000000,
+			"thorough:random_large_blobs":  10000,
 		},
 		Assumptions: []string{
 			"sources are sticky: after EOF or an I/O error every further read returns the same condition",
@@ -78,7 +102,7 @@ func main() {
 
 func body(w *run.Worker) {
 	t := tally{}
-	w.Cases("random", w.N(200000, 4000000), func(c *run.Case) {
+	w.Cases("random", w.N(200000, 3000000), func(c *run.Case) {
 		r := caseRng(c, w)
 		sc := genScenario(r)
 		cons := genConsumer(r, sc.size)
